@@ -50,14 +50,16 @@ def build_unit(unit):
         if k == "fn":
             try:
                 raw, line = extract.extract_fn(root, it)
-            except Inconclusive:
+                txt = extract.strip_inner_attrs_and_comments(raw)
+                txt, rlog = extract.apply_rewrites(txt, it.get("rewrites"), "fn " + it["name"])
+                txt = extract.transform_fn(txt, it)
+            except Inconclusive as ex:
                 if it.get("optional"):
                     meta.setdefault("optional_absent", []).append(it.get("qual", it["name"]))
                     continue
-                raise
-            txt = extract.strip_inner_attrs_and_comments(raw)
-            txt, rlog = extract.apply_rewrites(txt, it.get("rewrites"), "fn " + it["name"])
-            txt = extract.transform_fn(txt, it)
+                # a lost anchor in ONE item only drops that item: its obligations become inconclusive, the rest of the unit is still checked
+                meta.setdefault("lost_items", {})[it.get("rename", it["name"])] = str(ex)
+                continue
             meta["functions"].append({"fn": it.get("qual", it["name"]), "file": ("source/" if not it.get("root") else it["root"] + ":") + it["file"], "line": line,
                                       "sha256_of_extracted_text": __import__("hashlib").sha256(raw.encode()).hexdigest()[:16]})
             meta["rewrites"] += [dict(r, item=it["name"]) for r in rlog]
@@ -73,7 +75,11 @@ def build_unit(unit):
         if it.get("wrap"):
             o, t, tx = chunks.pop()
             chunks.append((o, t, it["wrap"][0] + "\n" + tx + "\n" + it["wrap"][1]))
-    if unit.get("trailer"):
+    lost = set(meta.get("lost_items", {}))
+    for needs, text in unit.get("trailer_parts", []):
+        if not (set(needs) & lost):
+            chunks.append(("<trailer>", unit.get("trailer_obls", []), text))
+    if unit.get("trailer") and not lost:
         chunks.append(("<trailer>", unit.get("trailer_obls", []), unit["trailer"]))
     chunks.append(("<tail>", [], "\n} // verus!\nfn main() {}\n"))
     text, linemap = "", []
